@@ -87,7 +87,7 @@ def run(pid):
         own = [x for x in items if x["rule"] in ("dead-primary-file-not-released", "dead-index-file-not-released", "low-use-file-not-drained",
                                                    "gc-increased-storage", "no-fixed-point", "process-crash-or-hang",
                                                    "emptied-oldest-primary-file-not-unlinked", "emptied-oldest-index-file-not-unlinked",
-                                                   "dead-primary-file-not-released-by-time-limited-cycles")]
+                                                   "dead-primary-file-not-released-by-time-limited-cycles", "gc-wrote-unreferenced-record")]
         if own:
             mine[t] = own
     report_bad(rep, scens, mine)
@@ -108,7 +108,8 @@ def run(pid):
                        "a subset removed/overwritten + 5 rounds; a subset overwritten + 12 drain cycles with threshold 0; 8 idle rounds for the fixed point. "
                        "Non-trivial: every scenario has non-current primary and index files before the GC phase (counted by the proj_multi_* figures)" % depth)
     rep.assumptions = ["TLC + Json module", "independent reader fsckread", "bounds: a dead file is released within 2 completed cycles, a low-use file within ceil(live/2)+3 cycles (measured: 1 and ceil(live/2)+1)",
-                       "the empty freelist file re-created by every hand-over is exempt from the 'nothing more is written' clause"]
+                       "the empty freelist file re-created by every hand-over is exempt from the 'nothing more is written' clause",
+                       "gc-wrote-unreferenced-record is evaluated for cycles without a time limit that start from a flushed point (a cycle cut short while it reads the freelist may legitimately relocate a record that is already superseded)"]
     return rep.finish()
 
 
